@@ -72,6 +72,7 @@ func (w *world) other(a uint16, v uint8) bool {
 
 func (w *world) tick() bool {
 	w.m.PPU.EndMachineCycle()
+	w.m.Mem.EndMachineCycle()
 	w.t++
 	if p, on := w.ref.Tick(); on {
 		w.seen[p.Line][p.Q] = true
@@ -90,9 +91,13 @@ func run(c *rig.Ctx) {
 	var seen [lcdref.Lines][lcdref.LineLen]bool
 	worlds := 0
 	newWorld := func() *world {
-		m := rig.MustNew(rig.BlankROM(0, 0, 0), rig.Opts{})
-		// OAM contents must not matter for the timing: empty, random, or all objects on one line
+		// the LCD debug option (a 256x256 debug picture) is a display matter, not a timing one
 		worlds++
+		m := rig.MustNew(rig.BlankROM(0, 0, 0), rig.Opts{DebugLCD: worlds%4 == 3})
+		if worlds%4 == 3 {
+			c.Count("worlds_with_debug_lcd", 1)
+		}
+		// OAM contents must not matter for the timing: empty, random, or all objects on one line
 		or := rig.NewRng(c.Seed, 0xc13, uint64(worlds), uint64(c.Shard))
 		switch worlds % 3 {
 		case 1:
@@ -226,8 +231,12 @@ func run(c *rig.Ctx) {
 				}
 			}
 			if i%2 == 1 && r.Chance(1, 500) {
-				a := r.Pick16([]uint16{0xff41, 0xff41, 0xff44, 0xff44, 0xff45, 0xff42, 0xff43, 0xff4a, 0xff4b, 0xff47, 0xff48, 0xff49})
-				if !w.other(a, r.U8()) {
+				a := r.Pick16([]uint16{0xff41, 0xff41, 0xff44, 0xff44, 0xff45, 0xff42, 0xff43, 0xff4a, 0xff4b, 0xff47, 0xff48, 0xff49, 0xff46})
+				v := r.U8()
+				if a == 0xff46 {
+					v = uint8(0xc0 + r.Intn(0x20)) // an OAM DMA transfer starts (and runs: see tick)
+				}
+				if !w.other(a, v) {
 					return
 				}
 			}
